@@ -1,1 +1,627 @@
-//! generators
+//! Generators: statement model, program generator, surface renderer.
+#![allow(dead_code)]
+pub mod faults;
+
+use crate::rng::Rng;
+use std::ops::Range;
+
+#[derive(Clone, Debug, PartialEq, Eq, Hash)]
+pub enum PcOp { Num(i32), Label(String) }
+#[derive(Clone, Debug, PartialEq, Eq, Hash)]
+pub enum Src { Reg(u8), Imm(i32) }
+
+/// Statement kinds as *written* (values may be out of range in fault cases).
+#[derive(Clone, Debug, PartialEq, Eq, Hash)]
+pub enum K {
+    Add(u8, u8, Src), And(u8, u8, Src), Br(u8, PcOp), Jmp(u8), Jsr(PcOp), Jsrr(u8), Ld(u8, PcOp), Ldi(u8, PcOp),
+    Ldr(u8, u8, i32), Lea(u8, PcOp), Not(u8, u8), Ret, Rti, St(u8, PcOp), Sti(u8, PcOp), Str(u8, u8, i32), Trap(i32),
+    Nop(Option<PcOp>), Getc, Out, Putc, Puts, In, Putsp, Halt,
+    Orig(i32), Fill(PcOp), Blkw(i32), Stringz(String), End, External(String),
+}
+
+#[derive(Clone, Debug, PartialEq, Eq, Hash)]
+pub struct GStmt { pub labels: Vec<String>, pub k: K }
+
+impl K {
+    /// number of words the statement occupies
+    pub fn size(&self) -> u32 {
+        match self {
+            K::Orig(_) | K::End | K::External(_) => 0,
+            K::Blkw(n) => (*n).max(0) as u32,
+            K::Stringz(s) => s.len() as u32 + 1,
+            _ => 1,
+        }
+    }
+    pub fn is_instr(&self) -> bool { !matches!(self, K::Orig(_) | K::Fill(_) | K::Blkw(_) | K::Stringz(_) | K::End | K::External(_)) }
+    pub fn name(&self) -> &'static str {
+        match self {
+            K::Add(_, _, Src::Reg(_)) => "ADDr", K::Add(..) => "ADDi", K::And(_, _, Src::Reg(_)) => "ANDr", K::And(..) => "ANDi",
+            K::Br(..) => "BR", K::Jmp(_) => "JMP", K::Jsr(_) => "JSR", K::Jsrr(_) => "JSRR", K::Ld(..) => "LD", K::Ldi(..) => "LDI",
+            K::Ldr(..) => "LDR", K::Lea(..) => "LEA", K::Not(..) => "NOT", K::Ret => "RET", K::Rti => "RTI", K::St(..) => "ST",
+            K::Sti(..) => "STI", K::Str(..) => "STR", K::Trap(_) => "TRAP", K::Nop(_) => "NOP", K::Getc => "GETC", K::Out => "OUT",
+            K::Putc => "PUTC", K::Puts => "PUTS", K::In => "IN", K::Putsp => "PUTSP", K::Halt => "HALT", K::Orig(_) => ".orig",
+            K::Fill(_) => ".fill", K::Blkw(_) => ".blkw", K::Stringz(_) => ".stringz", K::End => ".end", K::External(_) => ".external",
+        }
+    }
+    /// the PC-relative operand, if any, with its field width
+    pub fn pc_operand(&self) -> Option<(&PcOp, u32)> {
+        match self {
+            K::Br(_, o) | K::Ld(_, o) | K::Ldi(_, o) | K::Lea(_, o) | K::St(_, o) | K::Sti(_, o) => Some((o, 9)),
+            K::Nop(Some(o)) => Some((o, 9)),
+            K::Jsr(o) => Some((o, 11)),
+            _ => None,
+        }
+    }
+    pub fn pc_operand_mut(&mut self) -> Option<(&mut PcOp, u32)> {
+        match self {
+            K::Br(_, o) | K::Ld(_, o) | K::Ldi(_, o) | K::Lea(_, o) | K::St(_, o) | K::Sti(_, o) => Some((o, 9)),
+            K::Nop(Some(o)) => Some((o, 9)),
+            K::Jsr(o) => Some((o, 11)),
+            _ => None,
+        }
+    }
+}
+
+pub const KEYWORDS: [&str; 32] = ["ADD", "AND", "NOT", "BR", "BRP", "BRZ", "BRZP", "BRN", "BRNP", "BRNZ", "BRNZP", "JMP", "JSR", "JSRR",
+    "LD", "LDI", "LDR", "LEA", "ST", "STI", "STR", "TRAP", "NOP", "RET", "RTI", "GETC", "OUT", "PUTC", "PUTS", "IN", "PUTSP", "HALT"];
+
+/// Is `s` lexed as a label (and not as a keyword, register or hex literal)?
+pub fn is_label_name(s: &str) -> bool {
+    let b = s.as_bytes();
+    if b.is_empty() || !(b[0].is_ascii_alphabetic() || b[0] == b'_') { return false; }
+    if !b.iter().all(|c| c.is_ascii_alphanumeric() || *c == b'_') { return false; }
+    let up = s.to_ascii_uppercase();
+    if KEYWORDS.contains(&up.as_str()) { return false; }
+    if (b[0] == b'R' || b[0] == b'r') && b.len() > 1 && b[1..].iter().all(|c| c.is_ascii_digit()) { return false; }
+    if (b[0] == b'X' || b[0] == b'x') && b.len() > 1 && b[1].is_ascii_hexdigit() { return false; }
+    true
+}
+
+pub fn gen_label_name(rng: &mut Rng) -> String {
+    const STEMS: [&str; 24] = ["loop", "Done", "DATA", "msg", "ptr", "Next", "skip", "SUB", "buf", "val", "Top", "end_", "_tmp", "k", "Brx",
+        "halt_", "outer", "INNER", "ret_", "Zed", "w", "go", "Tbl", "y"];
+    loop {
+        let mut s = String::new();
+        if rng.chance(3, 4) { s.push_str(STEMS[rng.usize(STEMS.len())]); } else {
+            let n = 1 + rng.usize(6);
+            for i in 0..n {
+                let c = if i == 0 { *rng.pick(b"abcdefghijklmnopqrstuvwyzABCDEFGHIJKLMNOPQSTUVWYZ_") } else { *rng.pick(b"abcdefghijklmnopqrstuvwxyzABCDEFGHIJKLMNOPQRSTUVWXYZ0123456789_") };
+                s.push(c as char);
+            }
+        }
+        if rng.chance(2, 3) { s.push_str(&format!("{}", rng.below(1000))); }
+        if rng.chance(1, 8) { s.push('_'); }
+        if is_label_name(&s) { return s; }
+    }
+}
+
+pub fn recase(rng: &mut Rng, s: &str) -> String {
+    match rng.below(4) {
+        0 => s.to_string(),
+        1 => s.to_ascii_uppercase(),
+        2 => s.to_ascii_lowercase(),
+        _ => s.chars().map(|c| if rng.bool() { c.to_ascii_uppercase() } else { c.to_ascii_lowercase() }).collect(),
+    }
+}
+
+// ------------------------------------------------------------------------------------------
+// Program generation (well-formed by construction; the reference assembler re-derives that)
+// ------------------------------------------------------------------------------------------
+
+pub const ORIGINS: [u16; 14] = [0x0000, 0x0001, 0x01FF, 0x0200, 0x2FFF, 0x3000, 0x3001, 0x4000, 0x7FFF, 0x8000, 0xFD00, 0xFDF0, 0xFDFE, 0xFDFF];
+
+#[derive(Clone, Debug)]
+pub struct GenOpts {
+    pub max_blocks: usize,
+    pub max_stmts_per_block: usize,
+    pub externals: bool,
+    pub big_padding: bool,
+    /// restrict .stringz content to printable ASCII, tab, LF, CR, NUL
+    pub ascii_strings: bool,
+}
+impl Default for GenOpts {
+    fn default() -> Self { GenOpts { max_blocks: 4, max_stmts_per_block: 14, externals: true, big_padding: true, ascii_strings: false } }
+}
+
+fn boundary_signed(rng: &mut Rng, bits: u32) -> i32 {
+    let lo = -(1i32 << (bits - 1));
+    let hi = (1i32 << (bits - 1)) - 1;
+    match rng.below(10) {
+        0 => lo, 1 => lo + 1, 2 => -1, 3 => 0, 4 => 1, 5 => hi - 1, 6 => hi,
+        _ => rng.range(lo as i64, hi as i64) as i32,
+    }
+}
+
+pub fn gen_string(rng: &mut Rng, ascii_only: bool) -> String {
+    let n = match rng.below(8) { 0 => 0, 1 => 1, 2 => 2 + rng.usize(30), _ => rng.usize(9) };
+    let mut s = String::new();
+    for _ in 0..n {
+        let c = match rng.below(if ascii_only { 8 } else { 10 }) {
+            0 => '"', 1 => '\\', 2 => *rng.pick(&['\n', '\r', '\t', '\0']),
+            3 => ';', 4 => ' ',
+            5..=7 => (0x20 + rng.below(0x5f) as u8) as char,
+            8 => *rng.pick(&['é', 'ß', 'λ', '中', '🦀', '\u{7f}', '\u{1}']),
+            _ => *rng.pick(&['ü', 'Ж', '€']),
+        };
+        s.push(c);
+    }
+    s
+}
+
+/// Generates the body statements of one block (no .orig/.end), without labels or label operands.
+fn gen_body(rng: &mut Rng, n: usize, opts: &GenOpts) -> Vec<GStmt> {
+    let mut v = vec![];
+    for _ in 0..n {
+        let r = |rng: &mut Rng| rng.below(8) as u8;
+        let k = match rng.below(40) {
+            0 => K::Add(r(rng), r(rng), Src::Reg(r(rng))),
+            1 | 2 => K::Add(r(rng), r(rng), Src::Imm(boundary_signed(rng, 5))),
+            3 => K::And(r(rng), r(rng), Src::Reg(r(rng))),
+            4 | 5 => K::And(r(rng), r(rng), Src::Imm(boundary_signed(rng, 5))),
+            6 | 7 => K::Br(1 + rng.below(7) as u8, PcOp::Num(boundary_signed(rng, 9))),
+            8 => K::Jmp(r(rng)),
+            9 | 10 => K::Jsr(PcOp::Num(boundary_signed(rng, 11))),
+            11 => K::Jsrr(r(rng)),
+            12 | 13 => K::Ld(r(rng), PcOp::Num(boundary_signed(rng, 9))),
+            14 => K::Ldi(r(rng), PcOp::Num(boundary_signed(rng, 9))),
+            15 | 16 => K::Ldr(r(rng), r(rng), boundary_signed(rng, 6)),
+            17 => K::Lea(r(rng), PcOp::Num(boundary_signed(rng, 9))),
+            18 => K::Not(r(rng), r(rng)),
+            19 => K::Ret,
+            20 => K::Rti,
+            21 => K::St(r(rng), PcOp::Num(boundary_signed(rng, 9))),
+            22 => K::Sti(r(rng), PcOp::Num(boundary_signed(rng, 9))),
+            23 | 24 => K::Str(r(rng), r(rng), boundary_signed(rng, 6)),
+            25 => K::Trap(*rng.pick(&[0, 1, 0x20, 0x25, 0x7f, 0x80, 0xfe, 0xff])),
+            26 => K::Trap(rng.below(256) as i32),
+            27 => if rng.bool() { K::Nop(None) } else { K::Nop(Some(PcOp::Num(boundary_signed(rng, 9)))) },
+            28 => K::Getc, 29 => K::Out, 30 => K::Putc, 31 => K::Puts, 32 => K::In, 33 => K::Putsp, 34 => K::Halt,
+            35 | 36 => K::Fill(PcOp::Num(match rng.below(8) { 0 => 0, 1 => 65535, 2 => -32768, 3 => -1, 4 => 32767, 5 => 32768, _ => rng.range(-32768, 65535) as i32 })),
+            37 => K::Blkw(match rng.below(6) { 0 => 1, 1 => 2, 2 if opts.big_padding => 200 + rng.below(900) as i32, _ => 1 + rng.below(12) as i32 }),
+            _ => K::Stringz(gen_string(rng, opts.ascii_strings)),
+        };
+        v.push(GStmt { labels: vec![], k });
+    }
+    v
+}
+
+/// A generated program plus bookkeeping the oracles use.
+#[derive(Clone, Debug)]
+pub struct Program { pub stmts: Vec<GStmt> }
+
+fn block_len(body: &[GStmt]) -> u32 { body.iter().map(|s| s.k.size()).sum() }
+
+/// Generate a well-formed program: disjoint blocks below xFE00, labels unique ignoring case,
+/// label operands in range, externals used only in .fill.
+pub fn gen_program(rng: &mut Rng, opts: &GenOpts) -> Program {
+    let nblocks = 1 + rng.usize(opts.max_blocks);
+    // 1. bodies
+    let mut bodies: Vec<Vec<GStmt>> = (0..nblocks).map(|_| {
+        let n = match rng.below(10) { 0 => 0, 1 => 1, _ => 1 + rng.usize(opts.max_stmts_per_block) };
+        gen_body(rng, n, opts)
+    }).collect();
+    // 2. origins: place blocks without overlap
+    let mut placed: Vec<(u32, u32)> = vec![]; // (start, len)
+    let mut origins = vec![];
+    for body in bodies.iter_mut() {
+        let mut len = block_len(body);
+        let mut tries = 0;
+        let start = loop {
+            tries += 1;
+            let cand: u32 = match rng.below(10) {
+                0..=4 => *rng.pick(&ORIGINS) as u32,
+                5 if len > 0 && len <= 0xFE00 => 0xFE00 - len,                 // ends exactly at xFE00
+                6 if !placed.is_empty() => { let (s, l) = *rng.pick(&placed); s + l } // touches the end of another block
+                7 if !placed.is_empty() => { let (s, _) = *rng.pick(&placed); s.saturating_sub(len) } // touches the start
+                _ => rng.below(0xFE00) as u32,
+            };
+            let ok = cand + len <= 0xFE00 && cand <= 0xFFFF
+                && (len == 0 || placed.iter().all(|&(s, l)| l == 0 || cand + len <= s || s + l <= cand));
+            if ok { break cand; }
+            if tries > 40 { body.clear(); len = 0; let _ = len; break *rng.pick(&ORIGINS) as u32; }
+        };
+        placed.push((start, block_len(body)));
+        origins.push(start);
+    }
+    // 3. addresses of every statement, then labels
+    let mut names: Vec<String> = vec![];
+    let fresh = |rng: &mut Rng, names: &mut Vec<String>| -> String {
+        loop {
+            let n = gen_label_name(rng);
+            if !names.iter().any(|m| m.eq_ignore_ascii_case(&n)) { names.push(n.clone()); return n; }
+        }
+    };
+    // label definitions: (name, addr)
+    let mut defs: Vec<(String, u32)> = vec![];
+    let mut end_labels: Vec<Vec<String>> = vec![vec![]; nblocks];
+    for (bi, body) in bodies.iter_mut().enumerate() {
+        let mut lc = origins[bi];
+        for st in body.iter_mut() {
+            let nl = match rng.below(10) { 0..=5 => 0, 6..=8 => 1, _ => 2 + rng.usize(2) };
+            for _ in 0..nl { let n = fresh(rng, &mut names); defs.push((n.clone(), lc)); st.labels.push(n); }
+            lc += st.k.size();
+        }
+        if rng.chance(1, 6) { let n = fresh(rng, &mut names); defs.push((n.clone(), lc)); end_labels[bi].push(n); }
+    }
+    // 4. externals
+    let mut externals: Vec<String> = vec![];
+    if opts.externals && rng.chance(1, 3) { for _ in 0..1 + rng.usize(3) { externals.push(fresh(rng, &mut names)); } }
+    // 5. label operands: replace some numeric PC operands by labels that are in range; .fill gets any label
+    for (bi, body) in bodies.iter_mut().enumerate() {
+        let mut lc = origins[bi];
+        for st in body.iter_mut() {
+            let here = lc;
+            lc += st.k.size();
+            if let K::Fill(op) = &mut st.k {
+                if rng.chance(1, 3) && (!defs.is_empty() || !externals.is_empty()) {
+                    let use_ext = !externals.is_empty() && (defs.is_empty() || rng.chance(1, 2));
+                    let name = if use_ext { rng.pick(&externals).clone() } else { rng.pick(&defs).0.clone() };
+                    *op = PcOp::Label(recase(rng, &name));
+                }
+                continue;
+            }
+            if matches!(st.k, K::Nop(None)) && rng.chance(1, 2) { st.k = K::Nop(Some(PcOp::Num(0))); }
+            if let Some((op, bits)) = st.k.pc_operand_mut() {
+                if rng.chance(1, 2) {
+                    let lo = -(1i64 << (bits - 1));
+                    let hi = (1i64 << (bits - 1)) - 1;
+                    let cands: Vec<&(String, u32)> = defs.iter().filter(|(_, a)| {
+                        let d = (*a as i64 - (here as i64 + 1)).rem_euclid(65536);
+                        let d = if d >= 32768 { d - 65536 } else { d };
+                        d >= lo && d <= hi
+                    }).collect();
+                    if !cands.is_empty() {
+                        let name = rng.pick(&cands).0.clone();
+                        *op = PcOp::Label(recase(rng, &name));
+                    }
+                }
+            }
+        }
+    }
+    // 6. assemble the statement list; .external anywhere
+    let mut stmts = vec![];
+    let mut ext_pending = externals.clone();
+    rng.shuffle(&mut ext_pending);
+    let place_ext = |rng: &mut Rng, stmts: &mut Vec<GStmt>, ext_pending: &mut Vec<String>, force: bool| {
+        while !ext_pending.is_empty() && (force || rng.chance(1, 3)) {
+            let n = ext_pending.pop().unwrap();
+            stmts.push(GStmt { labels: vec![], k: K::External(recase(rng, &n)) });
+        }
+    };
+    for (bi, body) in bodies.into_iter().enumerate() {
+        place_ext(rng, &mut stmts, &mut ext_pending, false);
+        stmts.push(GStmt { labels: vec![], k: K::Orig(origins[bi] as i32) });
+        for st in body {
+            if rng.chance(1, 12) { place_ext(rng, &mut stmts, &mut ext_pending, false); }
+            stmts.push(st);
+        }
+        stmts.push(GStmt { labels: std::mem::take(&mut end_labels[bi]), k: K::End });
+    }
+    place_ext(rng, &mut stmts, &mut ext_pending, true);
+    Program { stmts }
+}
+
+/// Pads a program so that one label operand sits exactly at `delta` words from its field limit
+/// (0 = exactly at the limit, 1 = one past it -> fault). Returns a description if steering was applied.
+pub fn steer_offset(rng: &mut Rng, prog: &mut Program, past_limit: bool) -> Option<String> {
+    // pick a block with at least two sized statements; rebuild it as:  [instr with label operand] pad [target]  or reverse
+    let origs: Vec<usize> = prog.stmts.iter().enumerate().filter(|(_, s)| matches!(s.k, K::Orig(_))).map(|(i, _)| i).collect();
+    if origs.is_empty() { return None; }
+    let oi = *rng.pick(&origs);
+    let K::Orig(start) = prog.stmts[oi].k else { return None };
+    let end = (oi + 1..prog.stmts.len()).find(|&i| matches!(prog.stmts[i].k, K::End))?;
+    if prog.stmts[oi + 1..end].iter().any(|s| matches!(s.k, K::Orig(_))) { return None; }
+    // only steer blocks that are the last in address order to avoid creating overlaps
+    let my_len: u32 = prog.stmts[oi + 1..end].iter().map(|s| s.k.size()).sum();
+    let others_above = prog.stmts.iter().any(|s| matches!(s.k, K::Orig(o) if o > start));
+    if others_above { return None; }
+    let bits = if rng.chance(1, 3) { 11 } else { 9 };
+    let forward = rng.bool();
+    let lim_fwd = (1i32 << (bits - 1)) - 1; // max positive offset
+    let lim_back = 1i32 << (bits - 1);      // magnitude of the most negative offset
+    let name = { let mut n; loop { n = gen_label_name(rng); if !prog.stmts.iter().any(|s| s.labels.iter().any(|l| l.eq_ignore_ascii_case(&n))) { break; } } n };
+    let r = rng.below(8) as u8;
+    let mk = |rng: &mut Rng, op: PcOp| -> K {
+        if bits == 11 { K::Jsr(op) } else {
+            match rng.below(7) { 0 => K::Br(1 + rng.below(7) as u8, op), 1 => K::Ld(r, op), 2 => K::Ldi(r, op), 3 => K::Lea(r, op), 4 => K::St(r, op), 5 => K::Sti(r, op), _ => K::Nop(Some(op)) }
+        }
+    };
+    let extra = if past_limit { 1 } else { 0 };
+    let mut new_stmts: Vec<GStmt> = vec![];
+    let desc;
+    if forward {
+        // instr at A, target at A+1+lim (+1 when past the limit): pad = lim (+1) words between them
+        let pad = lim_fwd + extra;
+        if start as u32 + my_len + 2 + pad as u32 > 0xFE00 { return None; }
+        { let nm = recase(rng, &name); new_stmts.push(GStmt { labels: vec![], k: mk(rng, PcOp::Label(nm)) }); }
+        new_stmts.push(GStmt { labels: vec![], k: K::Blkw(pad) });
+        new_stmts.push(GStmt { labels: vec![name.clone()], k: K::Fill(PcOp::Num(0)) });
+        desc = format!("forward {bits}-bit offset {}", pad);
+    } else {
+        // target at T, instr at T + lim_back - 1 (+1): offset = T - (A+1) = -lim_back (-1)
+        let pad = lim_back - 2 + extra; // words between target word and instr
+        if start as u32 + my_len + 2 + pad as u32 > 0xFE00 { return None; }
+        new_stmts.push(GStmt { labels: vec![name.clone()], k: K::Fill(PcOp::Num(0)) });
+        new_stmts.push(GStmt { labels: vec![], k: K::Blkw(pad.max(1)) });
+        if pad < 1 { return None; }
+        { let nm = recase(rng, &name); new_stmts.push(GStmt { labels: vec![], k: mk(rng, PcOp::Label(nm)) }); }
+        desc = format!("backward {bits}-bit offset {}", -(pad + 2));
+    }
+    // append at the end of the chosen block
+    let tail: Vec<GStmt> = prog.stmts.split_off(end);
+    prog.stmts.extend(new_stmts);
+    prog.stmts.extend(tail);
+    Some(desc)
+}
+
+// ------------------------------------------------------------------------------------------
+// Surface renderer
+// ------------------------------------------------------------------------------------------
+
+#[derive(Clone, Debug, Default)]
+pub struct RStmt { pub label_spans: Vec<Range<usize>>, pub nucleus: Range<usize>, pub line: usize, pub operand_label_span: Option<Range<usize>> }
+
+#[derive(Clone, Debug, Default)]
+pub struct Rendered { pub text: String, pub stmts: Vec<RStmt>, pub features: Vec<&'static str> }
+
+#[derive(Clone, Debug)]
+pub struct Style {
+    pub crlf: u8,          // 0 = LF, 1 = CRLF, 2 = mixed
+    pub case: u8,          // 0 upper, 1 lower, 2 random per token
+    pub hostile_comments: bool,
+    pub plain: bool,       // minimal surface (one statement per line, single spaces)
+}
+impl Style {
+    pub fn random(rng: &mut Rng) -> Style {
+        Style { crlf: match rng.below(6) { 0 | 1 => 1, 2 => 2, _ => 0 }, case: rng.below(3) as u8, hostile_comments: rng.chance(1, 2), plain: false }
+    }
+    pub fn plain() -> Style { Style { crlf: 0, case: 0, hostile_comments: false, plain: true } }
+}
+
+struct R<'a> { out: String, rng: &'a mut Rng, st: Style, feats: Vec<&'static str> }
+
+impl<'a> R<'a> {
+    fn feat(&mut self, f: &'static str) { if !self.feats.contains(&f) { self.feats.push(f); } }
+    fn kw(&mut self, s: &str) -> String {
+        match self.st.case {
+            0 => s.to_ascii_uppercase(),
+            1 => { self.feat("lowercase-keyword"); s.to_ascii_lowercase() }
+            _ => { self.feat("mixedcase-keyword"); let r = &mut *self.rng; s.chars().map(|c| if r.bool() { c.to_ascii_uppercase() } else { c.to_ascii_lowercase() }).collect() }
+        }
+    }
+    fn ws(&mut self, min: usize) {
+        if self.st.plain { for _ in 0..min { self.out.push(' '); } return; }
+        let n = min + match self.rng.below(6) { 0 => 1, 1 => 2 + self.rng.usize(5), _ => 0 };
+        for _ in 0..n { if self.rng.chance(1, 5) { self.feat("tab"); self.out.push('\t'); } else { self.out.push(' '); } }
+    }
+    fn comment(&mut self) {
+        self.out.push(';');
+        let n = self.rng.usize(20);
+        for _ in 0..n {
+            let c = if self.st.hostile_comments {
+                match self.rng.below(12) {
+                    0 => '"', 1 => '\\', 2 => ';', 3 => '\t', 4 => *self.rng.pick(&['é', '🦀', '中', '\u{1}', '\u{7f}', '\0']), 5 => '.', 6 => '#', 7 => ':', 8 => ',',
+                    _ => (0x20 + self.rng.below(0x5f) as u8) as char,
+                }
+            } else { (0x20 + self.rng.below(0x5f) as u8) as char };
+            self.out.push(c);
+        }
+        if self.st.hostile_comments { self.feat("hostile-comment"); } else { self.feat("comment"); }
+    }
+    fn eol(&mut self) {
+        let crlf = match self.st.crlf { 0 => false, 1 => true, _ => self.rng.bool() };
+        if crlf { self.feat("crlf"); self.out.push('\r'); }
+        self.out.push('\n');
+    }
+    fn end_line(&mut self) {
+        if !self.st.plain {
+            self.ws(0);
+            if self.rng.chance(1, 4) { self.comment(); }
+        }
+        self.eol();
+        if !self.st.plain {
+            while self.rng.chance(1, 6) {
+                self.feat("blank-or-comment-line");
+                self.ws(0);
+                if self.rng.bool() { self.comment(); }
+                self.eol();
+            }
+        }
+    }
+    fn reg(&mut self, r: u8) {
+        let c = match self.st.case { 0 => 'R', 1 => 'r', _ => if self.rng.bool() { 'R' } else { 'r' } };
+        self.out.push(c);
+        if !self.st.plain && self.rng.chance(1, 12) { self.feat("reg-leading-zero"); self.out.push('0'); }
+        self.out.push((b'0' + r) as char);
+    }
+    /// writes a number; `signed_ctx`: field is signed (unsigned notation only allowed for v >= 0)
+    fn num(&mut self, v: i32) {
+        let lead = if !self.st.plain && self.rng.chance(1, 8) { self.feat("leading-zeros"); "00" } else { "" };
+        let xc = match self.st.case { 0 => 'x', 1 => 'X', _ => if self.rng.bool() { 'x' } else { 'X' } };
+        let hexup = self.rng.bool();
+        let hex = |m: u32| if hexup { format!("{m:X}") } else { format!("{m:x}") };
+        let s = if v < 0 {
+            let m = (-(v as i64)) as u32;
+            match if self.st.plain { 0 } else { self.rng.below(3) } {
+                0 => { self.feat("num:#-n"); format!("#-{lead}{m}") }
+                1 => { self.feat("num:-n"); format!("-{lead}{m}") }
+                _ => { self.feat("num:x-H"); format!("{xc}-{lead}{}", hex(m)) }
+            }
+        } else {
+            let m = v as u32;
+            match if self.st.plain { 0 } else { self.rng.below(3) } {
+                0 => { self.feat("num:#n"); format!("#{lead}{m}") }
+                1 => { self.feat("num:n"); format!("{lead}{m}") }
+                _ => { self.feat("num:xH"); format!("{xc}{lead}{}", hex(m)) }
+            }
+        };
+        self.out.push_str(&s);
+    }
+    fn comma(&mut self) {
+        self.ws(0);
+        self.out.push(',');
+        self.ws(if self.st.plain { 1 } else { 0 });
+    }
+    fn pcop(&mut self, op: &PcOp) -> Option<Range<usize>> {
+        match op {
+            PcOp::Num(v) => { self.num(*v); None }
+            PcOp::Label(l) => { let s = self.out.len(); self.out.push_str(l); Some(s..self.out.len()) }
+        }
+    }
+    fn string_lit(&mut self, s: &str) {
+        self.out.push('"');
+        let chars: Vec<char> = s.chars().collect();
+        let mut i = 0;
+        while i < chars.len() {
+            let c = chars[i];
+            match c {
+                '"' => self.out.push_str("\\\""),
+                '\n' => self.out.push_str("\\n"),
+                '\r' => self.out.push_str("\\r"),
+                '\t' => if self.rng.bool() { self.out.push_str("\\t") } else { self.out.push('\t') },
+                '\0' => self.out.push_str("\\0"),
+                '\\' => {
+                    // "\q" (unknown escape) keeps both characters: use that spelling sometimes
+                    let next = chars.get(i + 1).copied();
+                    let unknown_escape_ok = matches!(next, Some(n) if n.is_ascii() && !matches!(n, 'n' | 'r' | 't' | '\\' | '0' | '"' | '\n' | '\r' | '\t' | '\0'));
+                    if unknown_escape_ok && self.rng.chance(1, 3) { self.feat("unknown-escape"); self.out.push('\\'); self.out.push(next.unwrap()); i += 1; }
+                    else { self.out.push_str("\\\\"); }
+                }
+                c => self.out.push(c),
+            }
+            i += 1;
+        }
+        self.out.push('"');
+    }
+}
+
+/// Render statements as source text with randomized surface syntax; records spans and lines.
+pub fn render(rng: &mut Rng, stmts: &[GStmt], style: &Style) -> Rendered {
+    let mut r = R { out: String::new(), rng, st: style.clone(), feats: vec![] };
+    let mut infos = vec![];
+    if !r.st.plain && r.rng.chance(1, 4) { r.end_line(); }
+    for (si, st) in stmts.iter().enumerate() {
+        let mut info = RStmt::default();
+        r.ws(0);
+        for l in &st.labels {
+            let s = r.out.len();
+            r.out.push_str(l);
+            info.label_spans.push(s..r.out.len());
+            if !r.st.plain && r.rng.chance(1, 3) {
+                if r.rng.chance(1, 6) { r.ws(1); }
+                r.feat("colon");
+                r.out.push(':');
+            }
+            if !r.st.plain && r.rng.chance(1, 4) {
+                r.feat("label-on-own-line");
+                r.end_line();
+                r.ws(0);
+            } else {
+                r.ws(1);
+            }
+        }
+        let ns = r.out.len();
+        let mut oplabel = None;
+        let name = st.k.name();
+        match &st.k {
+            K::Add(d, s, x) | K::And(d, s, x) => {
+                let m = r.kw(&name[..3]); r.out.push_str(&m); r.ws(1);
+                r.reg(*d); r.comma(); r.reg(*s); r.comma();
+                match x { Src::Reg(t) => r.reg(*t), Src::Imm(v) => r.num(*v) }
+            }
+            K::Br(c, op) => {
+                let mut m = String::from("BR");
+                let full = *c == 7 && r.rng.bool();
+                if *c != 7 || full { if c & 4 != 0 { m.push('n'); } if c & 2 != 0 { m.push('z'); } if c & 1 != 0 { m.push('p'); } }
+                let m = r.kw(&m); r.out.push_str(&m); r.ws(1);
+                oplabel = r.pcop(op);
+            }
+            K::Jmp(x) | K::Jsrr(x) => { let m = r.kw(name); r.out.push_str(&m); r.ws(1); r.reg(*x); }
+            K::Jsr(op) => { let m = r.kw(name); r.out.push_str(&m); r.ws(1); oplabel = r.pcop(op); }
+            K::Ld(d, op) | K::Ldi(d, op) | K::Lea(d, op) | K::St(d, op) | K::Sti(d, op) => {
+                let m = r.kw(name); r.out.push_str(&m); r.ws(1); r.reg(*d); r.comma(); oplabel = r.pcop(op);
+            }
+            K::Ldr(d, b, o) | K::Str(d, b, o) => {
+                let m = r.kw(name); r.out.push_str(&m); r.ws(1); r.reg(*d); r.comma(); r.reg(*b); r.comma(); r.num(*o);
+            }
+            K::Not(d, s) => { let m = r.kw(name); r.out.push_str(&m); r.ws(1); r.reg(*d); r.comma(); r.reg(*s); }
+            K::Trap(v) => { let m = r.kw(name); r.out.push_str(&m); r.ws(1); r.num(*v); }
+            K::Nop(None) => { let m = r.kw(name); r.out.push_str(&m); }
+            K::Nop(Some(op)) => { let m = r.kw(name); r.out.push_str(&m); r.ws(1); oplabel = r.pcop(op); }
+            K::Ret | K::Rti | K::Getc | K::Out | K::Putc | K::Puts | K::In | K::Putsp | K::Halt | K::End => { let m = r.kw(name); r.out.push_str(&m); }
+            K::Orig(a) => {
+                let m = r.kw(name); r.out.push_str(&m); r.ws(1);
+                if r.st.plain || r.rng.chance(2, 3) { let xc = if r.st.case == 1 { 'X' } else { 'x' }; let s = format!("{xc}{:04X}", *a as u32); r.out.push_str(&s); } else { r.num(*a); }
+            }
+            K::Fill(op) => { let m = r.kw(name); r.out.push_str(&m); r.ws(1); oplabel = r.pcop(op); }
+            K::Blkw(n) => { let m = r.kw(name); r.out.push_str(&m); r.ws(1); r.num(*n); }
+            K::Stringz(s) => { let m = r.kw(name); r.out.push_str(&m); r.ws(1); r.string_lit(s); }
+            K::External(l) => { let m = r.kw(name); r.out.push_str(&m); r.ws(1); let s = r.out.len(); r.out.push_str(l); oplabel = Some(s..r.out.len()); }
+        }
+        info.nucleus = ns..r.out.len();
+        info.line = r.out[..ns].bytes().filter(|b| *b == b'\n').count();
+        info.operand_label_span = oplabel;
+        infos.push(info);
+        // last statement may lack a line terminator
+        if si + 1 == stmts.len() && !r.st.plain && r.rng.chance(1, 4) { r.feat("no-final-newline"); } else { r.end_line(); }
+    }
+    Rendered { text: r.out, stmts: infos, features: r.feats }
+}
+
+// ------------------------------------------------------------------------------------------
+// Bridge from the crate's AST to the generator's statement type (for comparison only)
+// ------------------------------------------------------------------------------------------
+use lc3_ensemble::ast::asm::{AsmInstr, Directive, Stmt, StmtKind};
+use lc3_ensemble::ast::{ImmOrReg, PCOffset};
+
+fn pc_i<const N: u32>(o: &PCOffset<i16, N>) -> PcOp {
+    match o { PCOffset::Offset(v) => PcOp::Num(v.get() as i32), PCOffset::Label(l) => PcOp::Label(l.name.clone()) }
+}
+fn src5(x: &ImmOrReg<5>) -> Src { match x { ImmOrReg::Imm(v) => Src::Imm(v.get() as i32), ImmOrReg::Reg(r) => Src::Reg(r.reg_no()) } }
+
+pub fn from_crate(st: &Stmt) -> GStmt {
+    let k = match &st.nucleus {
+        StmtKind::Instr(i) => match i {
+            AsmInstr::ADD(d, s, x) => K::Add(d.reg_no(), s.reg_no(), src5(x)),
+            AsmInstr::AND(d, s, x) => K::And(d.reg_no(), s.reg_no(), src5(x)),
+            AsmInstr::BR(c, o) => K::Br(*c, pc_i(o)),
+            AsmInstr::JMP(r) => K::Jmp(r.reg_no()),
+            AsmInstr::JSR(o) => K::Jsr(pc_i(o)),
+            AsmInstr::JSRR(r) => K::Jsrr(r.reg_no()),
+            AsmInstr::LD(d, o) => K::Ld(d.reg_no(), pc_i(o)),
+            AsmInstr::LDI(d, o) => K::Ldi(d.reg_no(), pc_i(o)),
+            AsmInstr::LDR(d, b, o) => K::Ldr(d.reg_no(), b.reg_no(), o.get() as i32),
+            AsmInstr::LEA(d, o) => K::Lea(d.reg_no(), pc_i(o)),
+            AsmInstr::NOT(d, s) => K::Not(d.reg_no(), s.reg_no()),
+            AsmInstr::RET => K::Ret, AsmInstr::RTI => K::Rti,
+            AsmInstr::ST(d, o) => K::St(d.reg_no(), pc_i(o)),
+            AsmInstr::STI(d, o) => K::Sti(d.reg_no(), pc_i(o)),
+            AsmInstr::STR(d, b, o) => K::Str(d.reg_no(), b.reg_no(), o.get() as i32),
+            AsmInstr::TRAP(v) => K::Trap(v.get() as i32),
+            AsmInstr::NOP(o) => K::Nop(Some(pc_i(o))),
+            AsmInstr::GETC => K::Getc, AsmInstr::OUT => K::Out, AsmInstr::PUTC => K::Putc, AsmInstr::PUTS => K::Puts,
+            AsmInstr::IN => K::In, AsmInstr::PUTSP => K::Putsp, AsmInstr::HALT => K::Halt,
+        },
+        StmtKind::Directive(d) => match d {
+            Directive::Orig(a) => K::Orig(a.get() as i32),
+            Directive::Fill(PCOffset::Offset(v)) => K::Fill(PcOp::Num(v.get() as i32)),
+            Directive::Fill(PCOffset::Label(l)) => K::Fill(PcOp::Label(l.name.clone())),
+            Directive::Blkw(n) => K::Blkw(n.get() as i32),
+            Directive::Stringz(s) => K::Stringz(s.clone()),
+            Directive::End => K::End,
+            Directive::External(l) => K::External(l.name.clone()),
+        },
+    };
+    GStmt { labels: st.labels.iter().map(|l| l.name.clone()).collect(), k }
+}
+
+/// Normal form used to compare a generated statement with the crate's parse of its rendering.
+pub fn normalize(st: &GStmt) -> GStmt {
+    let mut s = st.clone();
+    s.k = match s.k {
+        K::Nop(None) => K::Nop(Some(PcOp::Num(0))),
+        K::Fill(PcOp::Num(v)) => K::Fill(PcOp::Num(v & 0xFFFF)),
+        k => k,
+    };
+    s
+}
